@@ -1,4 +1,5 @@
 #!/bin/sh
+export HCSYM_EVIDENCE_DIR=/tmp/hcsym-scratch-evidence; mkdir -p $HCSYM_EVIDENCE_DIR
 # tools/benign_all.sh <diff> : apply a behaviour-preserving variant and run EVERY quick check; none may alarm.
 diff=$1
 git -C /repo apply "$diff" || { echo "patch does not apply"; exit 2; }
